@@ -91,6 +91,18 @@ def make_input(rng: random.Random, n_refs: int = 2, n_qry: int = 8, ref_labels=(
             if kind == "swapped":
                 a, b = b, a
             coords = a + [a[-1] + gap + v for v in b]
+        elif kind == "inversion":
+            # two neighbouring windows of the SAME reference, the second one inverted on the molecule: the first pass
+            # places one part, the second pass the other part on the same reference but the opposite strand
+            w1 = max(10, w // 2)
+            g = rng.randint(1, 4)
+            if w0 + 2 * w1 + g + 4 >= n:
+                w0 = max(4, n - 2 * w1 - g - 5)
+            a, _ = gen.cut_query(rng, xs, w0, w0 + w1 + rng.randint(0, 3), sigma=60)
+            b, _ = gen.cut_query(rng, xs, w0 + w1 + g, w0 + 2 * w1 + g, sigma=60)
+            b = gen.mirror_query(b)
+            gap = rng.randint(3000, 9000)
+            coords = a + [a[-1] + gap + v - b[0] for v in b]
         elif kind == "samestart":
             # several molecules of one input that START AT THE SAME reference label (same seed bin): the first is a long
             # plain copy, the later ones are shorter and continue, after a 17-30 kb deletion, with a tail
@@ -180,7 +192,7 @@ def write_input(workdir: str, inp: Dict, name: str, shuffle_rng=None, qsel=None,
 
 
 def run_once(workdir: str, rp: str, qp: str, tag: str, mode: str, extra: Optional[Dict] = None, cli: bool = False,
-             cpus: int = 1, record: bool = False, qids=None, rids=None, real_pool: bool = False) -> Dict:
+             cpus: int = 1, record: bool = False, qids=None, rids=None, real_pool: bool = False, hashseed=None) -> Dict:
     out = os.path.join(workdir, f"{tag}.xmap")
     files = pipeline.output_files(out, mode)
     for p in files.values():
@@ -189,7 +201,7 @@ def run_once(workdir: str, rp: str, qp: str, tag: str, mode: str, extra: Optiona
     argv = pipeline.arg_list(rp, qp, out, mode, cpus, extra, qids, rids)
     res: Dict = {"mode": mode, "argv": argv, "files": {}, "digest": {}, "recorded": [], "rows": None}
     if cli:
-        code, outtxt = pipeline.run_cli(argv)
+        code, outtxt = pipeline.run_cli(argv, hashseed=hashseed)
         res["status"] = "ok" if code == 0 else f"exit:{code}"
         res["log"] = outtxt if code != 0 else ""
     else:
